@@ -123,11 +123,9 @@ impl TimeDelta {
     pub fn sym_secs(self) -> SymInt {
         self.secs
     }
-    fn concrete(self, what: &str) -> i64 {
-        match self.secs.as_const() {
-            Some(n) => n,
-            None => panic!("vrt: unsupported {what} on a symbolic TimeDelta"),
-        }
+    /// Accessors returning primitives concretise the value on this path (bisection, +-400 years).
+    fn concrete(self, _what: &str) -> i64 {
+        vrt::concretize(self.secs, -400 * 366 * DAY, 400 * 366 * DAY)
     }
     pub fn num_weeks(self) -> i64 {
         self.concrete("num_weeks") / (7 * DAY)
@@ -710,11 +708,9 @@ impl NaiveTime {
     pub fn sym_secs(self) -> SymInt {
         self.secs
     }
-    fn concrete(self, what: &str) -> i64 {
-        match self.secs.as_const() {
-            Some(n) => n,
-            None => panic!("vrt: unsupported {what} on a symbolic NaiveTime"),
-        }
+    /// Accessors returning primitives concretise the second of day on this path (bisection).
+    fn concrete(self, _what: &str) -> i64 {
+        vrt::concretize(self.secs, 0, DAY - 1)
     }
     fn to_rc(self, what: &str) -> rc::NaiveTime {
         rc::NaiveTime::from_num_seconds_from_midnight_opt(self.concrete(what) as u32, 0).unwrap()
@@ -725,6 +721,54 @@ impl NaiveTime {
     }
     pub fn format<'a>(&self, fmt: &'a str) -> String {
         self.to_rc("format").format(fmt).to_string()
+    }
+}
+
+impl NaiveTime {
+    /// `time + delta` wraps around midnight (chrono semantics); returns the wrapped time and the
+    /// number of whole days carried (in seconds).
+    pub fn overflowing_add_signed(&self, d: TimeDelta) -> (NaiveTime, i64) {
+        let total = self.secs.add(d.secs);
+        let days = match total.as_const() {
+            Some(t) => t.div_euclid(DAY),
+            None => vrt::concretize(total.div_floor_const(DAY), -4_000_000, 4_000_000),
+        };
+        (NaiveTime { secs: total.sub(SymInt::Const(days * DAY)) }, days * DAY)
+    }
+    pub fn overflowing_sub_signed(&self, d: TimeDelta) -> (NaiveTime, i64) {
+        let (t, c) = self.overflowing_add_signed(TimeDelta { secs: SymInt::Const(0).sub(d.secs) });
+        (t, -c)
+    }
+    pub fn signed_duration_since(self, o: NaiveTime) -> TimeDelta {
+        TimeDelta { secs: self.secs.sub(o.secs) }
+    }
+    pub fn with_hour(&self, h: u32) -> Option<NaiveTime> {
+        use Timelike as _;
+        NaiveTime::from_hms_opt(h, self.minute(), self.second())
+    }
+    pub fn with_minute(&self, m: u32) -> Option<NaiveTime> {
+        NaiveTime::from_hms_opt(self.hour(), m, self.second())
+    }
+    pub fn with_second(&self, s: u32) -> Option<NaiveTime> {
+        NaiveTime::from_hms_opt(self.hour(), self.minute(), s)
+    }
+}
+impl Add<TimeDelta> for NaiveTime {
+    type Output = NaiveTime;
+    fn add(self, d: TimeDelta) -> NaiveTime {
+        self.overflowing_add_signed(d).0
+    }
+}
+impl Sub<TimeDelta> for NaiveTime {
+    type Output = NaiveTime;
+    fn sub(self, d: TimeDelta) -> NaiveTime {
+        self.overflowing_sub_signed(d).0
+    }
+}
+impl Sub<NaiveTime> for NaiveTime {
+    type Output = TimeDelta;
+    fn sub(self, o: NaiveTime) -> TimeDelta {
+        self.signed_duration_since(o)
     }
 }
 
@@ -872,6 +916,11 @@ impl NaiveDateTime {
         let days = self.date.signed_duration_since(o.date).secs;
         TimeDelta { secs: days.add(self.time.secs.sub(o.time.secs)) }
     }
+    fn and_utc_timestamp(&self) -> i64 {
+        let epoch = ce_days(rc::NaiveDate::from_ymd_opt(1970, 1, 1).unwrap());
+        let days = ce_days(self.date.to_real()) - epoch;
+        days * DAY + vrt::concretize(self.time.secs, 0, DAY - 1)
+    }
     pub fn and_utc(&self) -> DateTime<Utc> {
         DateTime { utc: *self, offset: Utc }
     }
@@ -928,6 +977,18 @@ impl Datelike for NaiveDateTime {
     }
     fn with_ordinal0(&self, x: u32) -> Option<Self> {
         self.date.with_ordinal0(x).map(|d| NaiveDateTime { date: d, time: self.time })
+    }
+}
+
+impl Timelike for NaiveDateTime {
+    fn hour(&self) -> u32 {
+        self.time.hour()
+    }
+    fn minute(&self) -> u32 {
+        self.time.minute()
+    }
+    fn second(&self) -> u32 {
+        self.time.second()
     }
 }
 
@@ -1052,10 +1113,10 @@ impl FixedOffset {
         self.east
     }
     pub fn local_minus_utc(&self) -> i32 {
-        match self.east.as_const() {
-            Some(n) => n as i32,
-            None => panic!("vrt: unsupported local_minus_utc on a symbolic offset"),
-        }
+        vrt::concretize(self.east, -86_399, 86_399) as i32
+    }
+    pub fn utc_minus_local(&self) -> i32 {
+        -self.local_minus_utc()
     }
 }
 impl fmt::Debug for FixedOffset {
@@ -1195,6 +1256,22 @@ impl<Tz: TimeZone> DateTime<Tz> {
     pub fn naive_utc(&self) -> NaiveDateTime {
         self.utc
     }
+    /// Seconds since 1970-01-01T00:00Z (concretises a symbolic instant).
+    pub fn timestamp(&self) -> i64 {
+        self.utc.and_utc_timestamp()
+    }
+    pub fn date_naive(&self) -> NaiveDate {
+        self.naive_local().date()
+    }
+    pub fn time(&self) -> NaiveTime {
+        self.naive_local().time()
+    }
+    pub fn fixed_offset(&self) -> DateTime<FixedOffset> {
+        DateTime { utc: self.utc, offset: self.offset.fix() }
+    }
+    pub fn to_utc(&self) -> DateTime<Utc> {
+        DateTime { utc: self.utc, offset: Utc }
+    }
     pub fn naive_local(&self) -> NaiveDateTime {
         self.utc
             .checked_add_signed(TimeDelta { secs: self.offset.fix().east })
@@ -1278,3 +1355,38 @@ impl<Tz: TimeZone, Tz2: TimeZone> Sub<DateTime<Tz2>> for DateTime<Tz> {
 
 #[allow(dead_code)]
 fn _unused(_: SymBool) {}
+
+
+// chrono implements `+ FixedOffset` / `- FixedOffset` on naive types (local time from UTC and back)
+impl Add<FixedOffset> for NaiveDateTime {
+    type Output = NaiveDateTime;
+    fn add(self, o: FixedOffset) -> NaiveDateTime {
+        self.checked_add_signed(TimeDelta { secs: o.east }).expect("`NaiveDateTime + FixedOffset` out of range")
+    }
+}
+impl Sub<FixedOffset> for NaiveDateTime {
+    type Output = NaiveDateTime;
+    fn sub(self, o: FixedOffset) -> NaiveDateTime {
+        self.checked_sub_signed(TimeDelta { secs: o.east }).expect("`NaiveDateTime - FixedOffset` out of range")
+    }
+}
+impl Add<FixedOffset> for NaiveTime {
+    type Output = NaiveTime;
+    fn add(self, o: FixedOffset) -> NaiveTime {
+        self + TimeDelta { secs: o.east }
+    }
+}
+impl Sub<FixedOffset> for NaiveTime {
+    type Output = NaiveTime;
+    fn sub(self, o: FixedOffset) -> NaiveTime {
+        self - TimeDelta { secs: o.east }
+    }
+}
+impl NaiveDateTime {
+    pub fn checked_add_offset(self, o: FixedOffset) -> Option<NaiveDateTime> {
+        self.checked_add_signed(TimeDelta { secs: o.east })
+    }
+    pub fn checked_sub_offset(self, o: FixedOffset) -> Option<NaiveDateTime> {
+        self.checked_sub_signed(TimeDelta { secs: o.east })
+    }
+}
